@@ -513,6 +513,33 @@ class Interp(object):
         elif isinstance(st, ast.AugAssign) and isinstance(st.target, ast.Name):
             self.kill([st.target.id], state)
 
+    def _resolve_ifexps(self, value, state, trace):
+        '''conditional expressions INSIDE a value (operands of + / arguments) whose test the rule's atoms decide are replaced by the
+        branch taken; a test the atoms do not know stays as it is'''
+        if not any(isinstance(n, ast.IfExp) for n in ast.walk(value)):
+            return value
+        me = self
+
+        class R(ast.NodeTransformer):
+            def visit_Lambda(s2, n):
+                return n
+
+            def visit_ListComp(s2, n):
+                return n
+            visit_SetComp = visit_DictComp = visit_GeneratorExp = visit_ListComp
+
+            def visit_IfExp(s2, n):
+                try:
+                    c = me.cond(n.test, state, trace)
+                except AnalysisError:
+                    return n
+                return s2.visit(n.body if c else n.orelse)
+        new = R().visit(normal.clone(value))
+        for n in ast.walk(new):
+            if not hasattr(n, 'lineno') and isinstance(n, (ast.expr, ast.stmt)):
+                ast.copy_location(n, value)
+        return new
+
     def _symbolic_assign(self, st, state, trace):
         '''name = <expr> that no effect of the rule recognises: a local binding, kept symbolically'''
         if not self.symbolic:
@@ -545,6 +572,7 @@ class Interp(object):
         if isinstance(value, ast.IfExp):
             chosen = value.body if self.cond(value.test, state, trace) else value.orelse
             return self._symbolic_assign(ast.copy_location(ast.Assign(targets=st.targets, value=chosen), st), state, trace)
+        value = self._resolve_ifexps(value, state, trace)
         value2 = fold_consts(self.subst(value, state))
         if self.pure(value2):
             if any(isinstance(x, ast.Name) and x.id == name for x in ast.walk(value2)):
@@ -679,6 +707,7 @@ class Interp(object):
             if value is not None:
                 if isinstance(value, ast.IfExp):
                     value = value.body if self.cond(value.test, state, trace) else value.orelse
+                value = self._resolve_ifexps(value, state, trace)
                 if self.symbolic and isinstance(value, ast.Call) and not (isinstance(value, ast.Name)):
                     v2 = fold_consts(self.subst(value, state))
                     if isinstance(v2, ast.Call):
